@@ -122,6 +122,12 @@ for rj in ("seed_round6.json", "seed_round7.json"):
     if os.path.exists(r6):
         for k, v in json.load(open(r6)).items():
             T[k] = tuple(v)
+SUPERSEDED = {
+ "C07e": "SUPERSEDED: since the repair of defect 23 (97a8c70) the source thread waits for the filter before it exits, so once acquire_stop has joined the source no writer is left and re-accepting writes at that point is harmless; the property holds with this change on the repaired tree. The delivered demonstration cannot even set up its scenario there (it waits for the sources to finish while the filter is blocked). R-STOP-SEQ was relaxed accordingly and no longer reports it.",
+}
+for k, v in SUPERSEDED.items():
+    if k in T:
+        T[k] = (T[k][0], T[k][1] + " " + v)
 mx = {}
 mp = os.path.join(V, "seeded", "matrix.json")
 if os.path.exists(mp):
